@@ -239,7 +239,32 @@ def assume(fb, fn, call, pull, fs, stop_at=()):
     start = position_after(fn, call)
     if start is None:
         return None
+    for k, v in state_env(fn, call).items():
+        env.setdefault(k, v)
     return E.explore(fn, start, env, site=call['id'], fb=fb, facts=E.guard_facts(fn, call['id']), stop_at=set(stop_at))
+
+
+def state_env(fn, call, until=None):
+    """What the guards of the pull call say about the object's own members when the call executes (`if (m_buffer)`: m_buffer is
+    non-null; `if (!m_stream_end)`: m_stream_end is 0), as an ERRDISC environment: the walk keeps it until the member is assigned.
+    With `until`, members that can be assigned between the call and element `until` are left out."""
+    env = {}
+    for (c, sense, fields) in state_guards(fn, call):
+        if len(fields) != 1:
+            continue
+        car = ('field', next(iter(fields)))
+        zero, nonzero = E.fin(0), E.ge(1)
+        for cand, other in ((zero, nonzero), (nonzero, zero)):
+            if E.eval3(fn, c, {car: cand}) is sense and E.eval3(fn, c, {car: other}) is (not sense):
+                env[car] = cand
+    if until is not None:
+        for n in fn.all_nodes():
+            if n.get('k') == 'assign':
+                car = E.carrier_of(fn, n['lhs'])
+                bar = lambda e: e == call['id']       # passing the pull call again re-establishes its guards
+                if car in env and reaches(fn, call['id'], n['id'], barrier=bar) and reaches(fn, n['id'], until, barrier=bar):
+                    env.pop(car)
+    return env
 
 
 def walk_from(fb, fn, node, site=None, stop_at=(), env=None):
@@ -403,20 +428,31 @@ def count_test_elements(fn, call, pull, X):
     cv = assigned_from(fn, call) if pull.count == 'ret' else None
     sq = stream_field(fn, call, pull)
     out = set()
+    after = set(fn.elems_after(call['id']))
+
+    def mentions(c, depth=0):
+        for x in fn.subtree(c):
+            n = fn.nodes[x]
+            if cv is not None and n.get('k') == 'var' and n.get('d') == cv:
+                return True
+            if sq is not None and is_stream_member(fn, x, sq, {'next_out', 'avail_out', 'total_out'}):
+                return True
+            if X is not None and string_call_on(fn, n, X, {'size', 'length', 'empty'}):
+                return True
+            # a named local computed from the count after this pull: `const bool no_output = avail_out == buffer_size;`
+            if depth < 2 and n.get('k') == 'var' and n.get('vk') == 'local' and n.get('d') != cv:
+                for m in fn.all_nodes():
+                    if m.get('k') == 'decl' and m['id'] in after:
+                        for v in m['vars']:
+                            if v['d'] == n['d'] and isinstance(v.get('init'), int) and mentions(v['init'], depth + 1):
+                                return True
+        return False
+
     for b in cond_blocks(fn):
         c = E.effective_cond(fn, b)
         if c is None:
             continue
-        hit = False
-        for x in fn.subtree(c):
-            n = fn.nodes[x]
-            if cv is not None and n.get('k') == 'var' and n.get('d') == cv:
-                hit = True
-            elif sq is not None and is_stream_member(fn, x, sq, {'next_out', 'avail_out', 'total_out'}):
-                hit = True
-            elif X is not None and string_call_on(fn, n, X, {'size', 'length', 'empty'}):
-                hit = True
-        if hit:
+        if mentions(c):
             out |= {x for x in fn.subtree(c) if x in els}
     return out
 
@@ -990,3 +1026,33 @@ def normalized(fb, fn, inline=True, _memo={}):
     res = g if changed else fn
     _memo[key] = res
     return res
+
+
+def input_test_elements(fn, call, pull):
+    """Elements of branch conditions that read the stream's unconsumed-input counter (avail_in), directly or through a local
+    computed from it after this pull."""
+    sq = stream_field(fn, call, pull)
+    if sq is None:
+        return set()
+    els = elements(fn)
+    after = set(fn.elems_after(call['id']))
+
+    def mentions(c, depth=0):
+        for x in fn.subtree(c):
+            n = fn.nodes[x]
+            if is_stream_member(fn, x, sq, {'avail_in'}):
+                return True
+            if depth < 2 and n.get('k') == 'var' and n.get('vk') == 'local':
+                for m in fn.all_nodes():
+                    if m.get('k') == 'decl' and m['id'] in after:
+                        for v in m['vars']:
+                            if v['d'] == n['d'] and isinstance(v.get('init'), int) and mentions(v['init'], depth + 1):
+                                return True
+        return False
+
+    out = set()
+    for b in cond_blocks(fn):
+        c = E.effective_cond(fn, b)
+        if c is not None and mentions(c):
+            out |= {x for x in fn.subtree(c) if x in els}
+    return out
